@@ -21,11 +21,19 @@
      rebuilt t     the same, limits dropped when nothing was skipped at the last rendering
      cleared t     t with the negotiated widths and any_lines_skipped unset
      coherent rows t   the stored widths / flag are the ones negotiated from [rows]
-     reachable fs rows t   t arises from the constructor by any sequence of fmt
-                   assignments, renderings and remove_columns (of columns that
-                   are not break-by columns of an already rendered table) *)
+     reachable fs rows t   t is a format state of a table over the records [rows]: it
+                   arises from the constructor (fmt string) or from the constructor with
+                   fmt_obj=<any reachable state of a table over ANY records, or a
+                   PPTableFormat made from a fmt string> (+ limits=, skip_columns=) by any
+                   sequence of fmt assignments, renderings and remove_columns (of columns
+                   that are not break-by columns of an already rendered table)
+     sessions (C13/Run.v, what the correspondence check runs): shared PPTableFormat
+                   objects + tables appended by MNew (fmt string) / MNewObj (fmt_obj= a
+                   shared object or tables[j].fmt), MOp j o = operation o on tables[j];
+                   mrun = the state after a list of operations, guarded = no operation
+                   removes a break-by column of an already rendered table *)
 From Coq Require Import ZArith List Bool.
-From AK Require Import Common.Err gen.C13_Consts C13.Model C13.Lemmas.
+From AK Require Import Common.Err gen.C13_Consts C13.Model C13.Run C13.Lemmas.
 Import ListNotations.
 Open Scope Z_scope.
 
@@ -137,6 +145,87 @@ Theorem roundtrip_at_any_moment : forall fs rows t,
    set_fmt t s = Ok (cleared t) /\ snd (print rows (cleared t)) = snd (print rows t)).
 Proof. exact any_moment. Qed.
 Print Assumptions roundtrip_at_any_moment.
+
+(* ---- tables made from format OBJECTS (PPTable(records, fmt_obj=X)) ---- *)
+
+(* the format state handed over with fmt_obj= is a deep copy without negotiated
+   widths and without any_lines_skipped: well formed and fresh, whatever the
+   records, widths and flag of the table X belongs to *)
+Theorem fmt_obj_state_fresh : forall fs x lim skip, t_fields x = fs /\ wf x = true ->
+  (t_fields (ctor_obj x lim skip) = fs /\ wf (ctor_obj x lim skip) = true) /\
+  (fresh (ctor_obj x lim skip) = true /\ t_skipped (ctor_obj x lim skip) = None).
+Proof. exact ctor_obj_inv. Qed.
+Print Assumptions fmt_obj_state_fresh.
+
+(* PPTable(records of t, fmt_obj=t.fmt) is handed the view of t *)
+Theorem fmt_obj_same_view : forall rows t, t_cols t <> [] -> coherent rows t ->
+  snd (print rows (ctor_obj t None None)) = snd (print rows t).
+Proof. exact view_fmt_obj. Qed.
+Print Assumptions fmt_obj_same_view.
+
+(* a table made from the format object of a table over OTHER records shows the
+   widths negotiated from its own records (not the ones the other table stored) *)
+Theorem fmt_obj_own_widths : forall fs rows rows' x lim skip,
+  fields_okb fs = true -> reachable fs rows' x -> t_cols (ctor_obj x lim skip) <> [] ->
+  snd (print rows (ctor_obj x lim skip)) = expected_view rows (ctor_obj x lim skip).
+Proof. exact view_fmt_obj_own. Qed.
+Print Assumptions fmt_obj_own_widths.
+
+(* every table of every session is reachable with respect to its own records ... *)
+Theorem session_tables_reachable : forall fs rowsets shared ops j tb,
+  fields_okb fs = true -> guarded fs rowsets (init_sess fs shared) ops ->
+  nth j (ss_tabs (mrun fs rowsets (init_sess fs shared) ops)) None = Some tb ->
+  reachable fs (nth (tb_k tb) rowsets []) (tb_st tb).
+Proof. exact session_tables. Qed.
+Print Assumptions session_tables_reachable.
+
+(* ... hence the property holds for each of them after any prefix of any session
+   (ops is arbitrary), whatever was done to the other tables in between *)
+Theorem session_roundtrip_at_any_moment : forall fs rowsets shared ops j tb,
+  fields_okb fs = true -> guarded fs rowsets (init_sess fs shared) ops ->
+  nth j (ss_tabs (mrun fs rowsets (init_sess fs shared) ops)) None = Some tb ->
+  t_cols (tb_st tb) <> [] ->
+  let rows := nth (tb_k tb) rowsets [] in let t := tb_st tb in
+  (set_fmt t (fmt_to_str t) = Ok (reformatted t) /\
+   snd (print rows (reformatted t)) = snd (print rows t)) /\
+  (nonneg_limits t ->
+   ctor fs (Some (fmt_to_str t)) None None = Ok (rebuilt t) /\
+   snd (print rows (rebuilt t)) = snd (print rows t)) /\
+  (forall s, In s [[]; [ch_semi]; [ch_semi; ch_semi]] ->
+   set_fmt t s = Ok (cleared t) /\ snd (print rows (cleared t)) = snd (print rows t)).
+Proof.
+  exact (fun fs rowsets shared ops j tb Hfs Hg E Hne =>
+           any_moment fs _ _ Hfs (session_tables fs rowsets shared ops j tb Hfs Hg E) Hne).
+Qed.
+Print Assumptions session_roundtrip_at_any_moment.
+
+(* the list of states [mrun] is the one the compared observations come from *)
+Theorem session_observations_follow_mrun : forall fs rowsets a b ss,
+  msteps fs rowsets ss (a ++ b) = msteps fs rowsets ss a ++ msteps fs rowsets (mrun fs rowsets ss a) b.
+Proof. exact msteps_app. Qed.
+Print Assumptions session_observations_follow_mrun.
+
+(* no operation touches another table or a shared format object *)
+Theorem session_siblings_untouched : forall fs rowsets ss m j',
+  match m with MOp j _ => j' <> j | _ => (j' < length (ss_tabs ss))%nat end ->
+  nth j' (ss_tabs (fst (mstep fs rowsets ss m))) None = nth j' (ss_tabs ss) None /\
+  ss_shared (fst (mstep fs rowsets ss m)) = ss_shared ss.
+Proof. exact siblings_untouched. Qed.
+Print Assumptions session_siblings_untouched.
+
+(* non-vacuity: one PPTableFormat 'id:2-8,name:1-20;1:1' shared by a table with short and
+   a table with long values, a third table made from the printed first table's format
+   object over the long records; each ends with the widths of its own records *)
+Example witness_session :
+  fields_okb sw_fields = true /\
+  guarded sw_fields [sw_short; sw_long] (init_sess sw_fields [Some sw_fmt]) sw_ops /\
+  map (fun o => match o with Some tb => fmt_to_str (tb_st tb) | None => [] end) (ss_tabs sw_final) =
+    [[110;97;109;101;58;49;45;50;48;40;52;41]; [105;100;58;50;45;56;40;53;41;44;110;97;109;101;58;49;45;50;48;40;50;48;41;59;49;58;49];
+     [105;100;58;50;45;56;40;53;41;44;110;97;109;101;58;49;45;50;48;40;50;48;41]] /\
+  map (fun o => match o with Some t => fmt_to_str t | None => [] end) (ss_shared sw_final) =
+    [[105;100;58;50;45;56;44;110;97;109;101;58;49;45;50;48;59;49;58;49]].
+Proof. exact sw_witness. Qed.
+Print Assumptions witness_session.
 
 (* outside the histories above: after remove_columns() dropped a break-by column
    of an already rendered table, the stored widths are not the ones a re-formatted
